@@ -111,8 +111,8 @@ theorem c19_tl_reparse_loop (r : Bytes → Tl.Res) (hr : ∀ b, r b ≠ .oof) (h
   reparse_no_oof r hr h0 c byteLen _ j s (Nat.le_refl _)
 
 /-- TL vector loop with the guard of the F16 repair: a declared length larger than the remaining input raises before
-the first iteration, so a vector field iterates at most `len(data) - i - 4` times.  (The loop as coded today has no
-guard: `Tl.vecItersUnfixed declared = declared` — 2^22 iterations over 0 bytes; known finding F16.) -/
+the first iteration, so a vector field iterates at most `len(data) - i - 4` times.  (Before the repair 110bf4a the loop
+had no guard: `Tl.vecItersUnfixed declared = declared` — 2^22 iterations over 0 bytes, F16.) -/
 theorem c19_tl_vector_guard (rec : Bytes → Option Nat → Tl.Res) (data : Bytes) (i : Nat) (elem : Option Nat)
     (h : data.length < i + 4 + Tl.natOfLE (sl data i (i + 4))) :
     Tl.fieldStep rec data i (.vec elem) = .raised 0 true := by
